@@ -891,6 +891,12 @@ if not (np.array_equal(np.asarray(g.GCS.origin, float), [0, 0, 0]) and np.array_
                   dict(gcs_origin=np.asarray(g.GCS.origin, float), gcs_i_hat=np.asarray(g.GCS.i_hat, float),
                        gcs_j_hat=np.asarray(g.GCS.j_hat, float), gcs_k_hat=np.asarray(g.GCS.k_hat, float)), failing_input_found=True)
 
+# ---- the glue model of the public functions (Model files added later, see manifest text) tied to the library on every run:
+#      inputs generated here, the library run on them, the model evaluated on the same inputs by vm_compute inside coqc
+import ties.tie_C19 as _tie_glue  # noqa: E402
+_tie_n = _tie_glue.run(chk, arim, rng, Q)
+chk.cov["glue_model_tie_comparisons"] = int(_tie_n or 0)
+
 chk.finish(
     evaluations=evaluations, distinct_nontrivial=len(nontrivial),
     rule="distinct (element count, pitch, reference, layout, tilt, dead mask) poses accepted by the registration + distinct "
